@@ -127,10 +127,15 @@ def predicates(c):
     want = expected_shape(op, args, c['shape'])
     if list(out.shape) != want:
         return {'shape': {'got': [int(x) for x in out.shape], 'want': want}}
+    # large cases (size regimes) name the parts to evaluate here: the entry loops below are replaced by the exact
+    # entry-wise reference of harness/props/c10_sizes.py (which includes totals and labels); commutation stays here
+    parts = c.get('pred_parts') or ['total', 'project', 'fold']
     # ---- totals -----------------------------------------------------------------------------------------
     omask = np.ma.getmaskarray(out)
     odata = np.where(omask, 0.0, np.asarray(out.data))
-    if op == 'scramble':
+    if 'total' not in parts:
+        pass
+    elif op == 'scramble':
         out2 = apply(op, args, fs, mc_override=False)
         P['total'] = [float(np.asarray(out2.data).sum()), float(indata.sum()), float(np.abs(indata).sum())]
         P['total_masked_entries'] = int(np.ma.getmaskarray(out2).sum())
@@ -174,7 +179,7 @@ def predicates(c):
             P['labels'] = {'ok': bool(ok), 'err': worst, 'scale': float(np.abs(indata).sum()), 'detail': detail,
                            'ids_out': None if ids_out is None else list(ids_out)}
     # ---- commutation with projection (axes whose allele counts are not merged) --------------------------------
-    if op != 'scramble' and c.get('proj') is not None:
+    if op != 'scramble' and c.get('proj') is not None and 'project' in parts:
         ns_in = list(c['proj'])          # target sample sizes, one per input axis
         srcs = source_axes(op, args, d) if op != 'misc' else \
             ([[0, 1]] if d == 2 else [list(args.get('idx') or [0, 1]), [k for k in range(3) if k not in (args.get('idx') or [0, 1])]])
@@ -185,8 +190,8 @@ def predicates(c):
         a2 = apply(op, args, fs).project(ns_out)
         P['project'] = compare(a1, a2, indata)
     # ---- commutation with folding -------------------------------------------------------------------------
-    if op != 'misc':
-        for mc in (False, True):
+    if op != 'misc' and 'fold' in parts:
+        for mc in ((False, True) if c.get('fold_mcs') is None else [bool(x) for x in c['fold_mcs']]):
             g = build(c, masked=False, folded='no', mask_corners=mc)
             b1 = apply(op, args, g.fold())
             b2 = apply(op, args, g).fold()
